@@ -3656,6 +3656,13 @@ func runC04ScanType(c *Ctx) {
 			break
 		}
 		isNil := res[0].String() == "nil"
+		if !isNil {
+			// the value returned may be the (nil) error of the Scan call itself,
+			// handed back through a named result
+			if a, ok := it.answer("("+res[0].String()+"==nil)", true); ok && a.kind == 1 && a.b {
+				isNil = true
+			}
+		}
 		switch {
 		case t.scanErr:
 			if isNil || assigned > 0 {
@@ -3801,6 +3808,7 @@ type countLoop struct {
 	phi  *ssa.Phi
 	init ssa.Value
 	loop map[*ssa.BasicBlock]bool
+	cell *ssa.Alloc // set instead of phi when the counter is a captured variable
 }
 
 func countingLoops(f *ssa.Function) []countLoop {
@@ -3832,7 +3840,54 @@ func countingLoops(f *ssa.Function) []countLoop {
 				}
 			}
 			if step && init != nil {
-				out = append(out, countLoop{h, phi, init, loop})
+				out = append(out, countLoop{h, phi, init, loop, nil})
+			}
+		}
+		// a counter that lives in memory because a closure captures it: `i` is a cell, initialised before the
+		// loop and incremented by 1 inside it, and the header tests a load of it
+		if len(h.Instrs) > 0 {
+			if ifi, ok := h.Instrs[len(h.Instrs)-1].(*ssa.If); ok {
+				if bo, ok := ifi.Cond.(*ssa.BinOp); ok {
+					for _, opnd := range []ssa.Value{bo.X, bo.Y} {
+						ld, ok := opnd.(*ssa.UnOp)
+						if !ok || ld.Op != token.MUL {
+							continue
+						}
+						al, ok := ld.X.(*ssa.Alloc)
+						if !ok || al.Referrers() == nil {
+							continue
+						}
+						if bt, ok := deref(al.Type()).Underlying().(*types.Basic); !ok || bt.Info()&types.IsInteger == 0 {
+							continue
+						}
+						var init ssa.Value
+						step, other := false, false
+						for _, r := range *al.Referrers() {
+							st, ok := r.(*ssa.Store)
+							if !ok || st.Addr != ssa.Value(al) {
+								continue
+							}
+							if loop[st.Block()] {
+								if add, ok := st.Val.(*ssa.BinOp); ok && add.Op == token.ADD {
+									if l2, ok := add.X.(*ssa.UnOp); ok && l2.Op == token.MUL && l2.X == ssa.Value(al) {
+										if kc, ok := constInt(add.Y); ok && kc == 1 {
+											step = true
+											continue
+										}
+									}
+								}
+								other = true
+							} else if init == nil {
+								init = st.Val
+							} else {
+								other = true
+							}
+						}
+						if step && init != nil && !other {
+							out = append(out, countLoop{h, nil, init, loop, al})
+						}
+					}
+				}
 			}
 		}
 	}
@@ -3865,18 +3920,19 @@ func dumpCountLoops(c *Ctx) {
 // ---------------------------------------------------------------------------
 
 var loopsFromOne = map[string]string{
-	"geom.(LineString).PointOnSurface":      "candidates are the interior control points: the first and last are excluded by design",
-	"geom.(MultiLineString).PointOnSurface": "candidates are the interior control points of each member: first and last excluded by design",
-	"geom.addLineStringInteractions":        "looks at the triple (i-1, i, i+1): interior vertices only",
-	"geom.centroidOfRing":                   "triangle fan from vertex 0: triangles (0, i, i+1)",
-	"geom.densify":                          "inner loop inserts the points strictly between two vertices; the start vertex is copied before it",
-	"geom.firstAndLastLines":                "compares vertex i with vertex i-1",
-	"geom.hasAtLeast2DistinctPointsInSeq":   "compares every later point with point 0",
-	"geom.leftmostThenLowestIndex":          "the running best starts as element 0",
-	"geom.rightmostThenHighestIndex":        "the running best starts as element 0",
-	"geom.sortAndUniquifyFloats":            "compares element i with element i-1; element 0 is always kept",
-	"geom.uniquifyGroupedXYs":               "compares element i with element i-1; element 0 is always kept",
-	"rtree.calculateBound":                  "the bound starts as the box of entry 0",
+	"geom.(LineString).PointOnSurface":           "candidates are the interior control points: the first and last are excluded by design",
+	"geom.(MultiLineString).PointOnSurface":      "candidates are the interior control points of each member: first and last excluded by design",
+	"geom.addLineStringInteractions":             "looks at the triple (i-1, i, i+1): interior vertices only",
+	"geom.centroidOfRing":                        "triangle fan from vertex 0: triangles (0, i, i+1)",
+	"geom.densify":                               "inner loop inserts the points strictly between two vertices; the start vertex is copied before it",
+	"geom.firstAndLastLines":                     "compares vertex i with vertex i-1",
+	"geom.hasAtLeast2DistinctPointsInSeq":        "compares every later point with point 0",
+	"geom.leftmostThenLowestIndex":               "the running best starts as element 0",
+	"geom.rightmostThenHighestIndex":             "the running best starts as element 0",
+	"geom.sortAndUniquifyFloats":                 "compares element i with element i-1; element 0 is always kept",
+	"geom.uniquifyGroupedXYs":                    "compares element i with element i-1; element 0 is always kept",
+	"rtree.calculateBound":                       "the bound starts as the box of entry 0",
+	"geom.(exactEqualsComparator).lineStringsEq": "rotation offsets 1..n-1 of a ring; offset 0 is the identity comparison made before the loop",
 }
 
 func init() {
@@ -3948,7 +4004,11 @@ func runC20FullRange(c *Ctx) {
 			for b := range cl.loop {
 				for _, in := range b.Instrs {
 					if bo, ok := in.(*ssa.BinOp); ok {
-						if bo.Op == token.SUB && bo.X == ssa.Value(cl.phi) {
+						isCounter := cl.phi != nil && bo.X == ssa.Value(cl.phi)
+						if ld, ok := bo.X.(*ssa.UnOp); ok && cl.cell != nil && ld.Op == token.MUL && ld.X == ssa.Value(cl.cell) {
+							isCounter = true
+						}
+						if bo.Op == token.SUB && isCounter {
 							if kc, ok := constInt(bo.Y); ok && kc == init {
 								usesPrev = true
 							}
